@@ -14,6 +14,7 @@ EXPLANATION = (
     "error, and every call-mode letter they produce is a key of mode_types. Textual round trip of floats and results inside a running program are "
     "not decided."
     " Added after seed round 6: P7 the problog_export wrapper fails only under except UnifyError: the truth value of the function's result never decides success."
+    " Added after seed round 7: P8 the nondeterministic export wrapper appends every successfully converted solution."
 )
 TECHNIQUE = "static analysis: writer/reader table agreement and codec-shape rules on the AST"
 LEVEL_TEXT = EXPLANATION
@@ -375,6 +376,17 @@ def rule_p6(repo, col):
     col.floor("P6.number_paths", n, 2)
 
 
+def _registered_wrapper(call):
+    """the nested function that __call__ registers with add_function(...) (other nested defs are helpers of it)"""
+    inner = {n.name: n for n in ast.walk(call.node) if isinstance(n, ast.FunctionDef) and n is not call.node}
+    reg = [a.id for c in ast.walk(call.node) if isinstance(c, ast.Call) and isinstance(c.func, ast.Attribute) and c.func.attr == "add_function" for a in c.args if isinstance(a, ast.Name) and a.id in inner]
+    if len(set(reg)) != 1:
+        if len(inner) == 1:
+            return list(inner.values())[0]
+        raise AnalysisError("%s: registered wrapper function not found" % call.qualname)
+    return inner[reg[0]]
+
+
 def rule_p7(repo, col):
     """problog_export wrapper (deterministic functions): the call fails only when an output cannot be unified with a bound argument; the VALUE the Python function returned
     never decides success (0, 0.0, '' and [] are values, not failures)"""
@@ -385,10 +397,7 @@ def rule_p7(repo, col):
     if call is None:
         raise AnalysisError("problog_export.__call__ missing")
     m = call.module
-    inner = [n for n in ast.walk(call.node) if isinstance(n, ast.FunctionDef) and n is not call.node]
-    if len(inner) != 1:
-        raise AnalysisError("problog_export.__call__: wrapper function not found")
-    w = inner[0]
+    w = _registered_wrapper(call)
     res = None
     for st in ast.walk(w):
         if isinstance(st, ast.Assign) and isinstance(st.targets[0], ast.Name) and isinstance(st.value, ast.Call) and norm(st.value.func) == "func":
@@ -428,10 +437,7 @@ def rule_p8(repo, col):
     if call is None:
         raise AnalysisError("problog_export_nondet.__call__ missing")
     m = call.module
-    inner = [n for n in ast.walk(call.node) if isinstance(n, ast.FunctionDef) and n is not call.node]
-    if len(inner) != 1:
-        raise AnalysisError("problog_export_nondet.__call__: wrapper function not found")
-    w = inner[0]
+    w = _registered_wrapper(call)
     rets = [norm(r.value) for r in walk_no_nested(w) if isinstance(r, ast.Return) and r.value is not None]
     if len(set(rets)) != 1:
         raise AnalysisError("nondet wrapper: single result list expected")
